@@ -61,7 +61,7 @@ func (p *c17) Rule() string {
 	return "one file per run moved by the real fdo.download, fdo.upload or fdo.wget module pair inside a real TO2 under the seeded scheduler; sizes 1..~20k with every size around chunk and MTU multiples (k*c-1, k*c, k*c+1), contents random/zero/periodic, download chunk sizes 1..65535 and 0/negative defaults, MTUs 128..65535 in both directions; faults: one of {data byte flipped, data message dropped, duplicated, swapped with its successor, shortened, extended; announced length decreased/increased; announced digest bit-flipped} applied between the tunnel and the receiving module, disk faults {CreateTemp fails, temp file not writable, rename fails, destination directory missing}, wget server faults {500, body truncated, body read error, body byte flipped, stall beyond the timeout}; a reference model computes from the messages actually delivered whether received length and SHA-384 match the announcement; oracle: a file at the destination implies bytes identical to what was received, under the announced name, with matching length and digest; match and no disk fault implies the file is there, TO2 succeeds and the receiver reports the size; mismatch or disk fault implies no file at the destination, nothing else in the destination directory, and no positive report; non-trivial = a fault fired; distinct = distinct (kind, fault, size class, schedule, outcome)"
 }
 func (p *c17) DeadlockIsViolation() bool { return true }
-func (p *c17) Exhaustive(string) bool { return false }
+func (p *c17) Exhaustive(string) bool    { return false }
 func (p *c17) Components() map[string][]string {
 	return map[string][]string{
 		"real": {"fsim.Download, fsim.DownloadContents, fsim.Upload, fsim.UploadRequest, fsim.Wget, fsim.WgetCommand", "fdo.TO2 client and TO2Server service-info loops, chunking pipes, encrypted tunnel", "os files for temp and destination (tmpfs scratch directory)"},
